@@ -103,7 +103,10 @@ func (k Keeper) CalculateBatchAllocation(ctx context.Context, auction types.Auct
 		if matched { // If we found a valid matching price, store the result
 			matchRes = res
 		}
-		return matched
+		// The search predicate must be monotonic over prices: a price qualifies when
+		// the demand at that price fits the selling amount (res is nil otherwise),
+		// even if nothing is matched at that price (e.g. only dust bids that convert to zero).
+		return res != nil
 	})
 
 	mInfo.MatchedLen = int64(len(matchRes.MatchedBids))
